@@ -11,7 +11,7 @@ sys.path.insert(0, os.path.join(VERIF, 'gen'))
 import c06gen as G
 
 INF = G.INF
-N_THEOREMS = 53
+N_THEOREMS = 55
 NUMTOK = re.compile(r'-?\d+(?:p-?\d+)?')
 
 
